@@ -76,6 +76,23 @@ class Ctx:
         log("[run] %s rc=%d (%.1fs)" % (os.path.basename(binp), rc, time.time() - t))
         return rc, out
 
+    def run_harness(self, binp, args, trace_path, timeout=1200, env=None):
+        """Run a harness that writes trace_path.  The harness runs to completion on the unchanged tree, so an abort
+        (assertion inside GLM, crash, non-zero exit) on the tree under test is a rejection, not an infrastructure failure."""
+        rc, out = self.run(binp, args, timeout=timeout, env=env)
+        if rc != 0:
+            tail = []
+            try:
+                with open(trace_path, errors="replace") as f:
+                    tail = f.read().splitlines()[-20:]
+            except OSError:
+                pass
+            rp = self.write_replay("harness-abort-" + os.path.basename(binp).split("-")[0], tail, "exit code %d\n%s" % (rc, out[-3000:]))
+            self.violation("harness %s aborted with exit code %d while executing GLM calls (it completes on the unchanged tree): %s"
+                           % (os.path.basename(binp).split("-")[0], rc, out.strip().splitlines()[-1][:300] if out.strip() else ""), rp)
+            return False, out
+        return True, out
+
     # ---------------------------------------------------------------- E4
     def validate(self, trace_module, trace_path, cfg=None, group_marker=None, env=None, label="", jobs=None,
                  count_distinct=True, min_lines=2000, timeout=1500, xmx="3g"):
